@@ -524,3 +524,29 @@ mut("sb-shiftadd", ["C01"], "qlasskit/types/qint.py", "remainder of an even cons
 mut("mp-relabel-unguarded", ["C12"], "qlasskit/decompiler/decopt.py", "relabelled sections are spliced")(
     lambda t: rewrite_in(t, "circuit_boolean_optimizer", lambda n: isinstance(n, ast.If) and "qubit_map.get" in norm(n.test), lambda n: ast.Pass())
 )
+
+
+@twin("b-annotate-locals", "plain `name = value` statements of several modules given a type annotation (`name: object = value`)")
+def _b_annot(root):
+    for rel in ("qlasskit/compiler/internalcompiler.py", "qlasskit/qcircuit/qcircuitenhanced.py", "qlasskit/types/qint.py", "qlasskit/decompiler/decopt.py", "qlasskit/ast2logic/env.py", "qlasskit/qlassfun.py", "qlasskit/types/__init__.py", "qlasskit/boolopt/bool_optimizer.py"):
+        p = os.path.join(root, rel)
+        tree = ast.parse(open(p).read())
+
+        class T(ast.NodeTransformer):
+            def __init__(self):
+                self.depth = 0
+
+            def visit_FunctionDef(self, node):
+                self.depth += 1
+                self.generic_visit(node)
+                self.depth -= 1
+                return node
+
+            def visit_Assign(self, node):
+                if self.depth > 0 and len(node.targets) == 1 and isinstance(node.targets[0], ast.Name):
+                    return ast.AnnAssign(target=node.targets[0], annotation=ast.Name(id="object", ctx=ast.Load()), value=node.value, simple=1)
+                return node
+
+        tree = T().visit(tree)
+        ast.fix_missing_locations(tree)
+        open(p, "w").write(ast.unparse(tree) + "\n")
